@@ -2077,12 +2077,27 @@ class Circuit(Unitary, StateVectorMap, Collection[Operation]):
 
         region = region.shift_left(len(idle_cycles))
 
+        # Moving every gate out of a cycle leaves it empty; remove those too
+        emptied_cycles = [
+            cycle_index
+            for cycle_index in range(region.min_cycle, region.max_min_cycle)
+            if self._is_cycle_idle(cycle_index)
+        ]
+        for i, cycle_index in enumerate(emptied_cycles):
+            self.pop_cycle(cycle_index - i)
+
         # Prep output
         region = CircuitRegion({
-            qudit_index: (region.min_cycle, region[qudit_index][1])
+            qudit_index: (
+                region.min_cycle,
+                region[qudit_index][1] - sum(
+                    1 for cycle_index in emptied_cycles
+                    if cycle_index < region[qudit_index][1]
+                ),
+            )
             for qudit_index in region
         })
-        net_new_cycles = shadow_length - len(idle_cycles)
+        net_new_cycles = shadow_length - len(idle_cycles) - len(emptied_cycles)
         shadow_region = CircuitRegion({
             qudit_index: (shadow_start, shadow_map[qudit_index])
             for qudit_index in shadow_qudits
